@@ -1,6 +1,7 @@
 package main
 
 import (
+	"encoding/binary"
 	"bytes"
 	"compress/gzip"
 	"encoding/hex"
@@ -1008,6 +1009,17 @@ func czRunCorrupt(c *czCase, st *czStream, payload []byte, v *czVerdict) *czVerd
 	if c.Op == "flip" && base == "zstd" {
 		emit("undetectable-no-checksum") // the frame carries no checksum: nothing promises detection
 		return v
+	}
+	if c.Op == "flip" && strings.HasPrefix(c.Fmt, "zstd-skip") && c.Off >= 4 && c.Off < 8 && len(st.data) >= 8 && len(o.data) == 0 {
+		// the flip changed the size field of the leading skippable frame so that the frame now covers exactly the
+		// rest of the stream: a well-formed zstd stream made of one skippable frame, which decodes to nothing
+		// (skippable frames have no checksum; no decoder can tell)
+		hdr := append([]byte{}, st.data[4:8]...)
+		hdr[c.Off-4] ^= 1 << uint(c.Bit)
+		if int(binary.LittleEndian.Uint32(hdr)) == len(st.data)-8 {
+			emit("valid-alternative-stream")
+			return v
+		}
 	}
 	_, why := o.clean(payload)
 	emit("FAIL")
